@@ -74,6 +74,7 @@ class InterpB(Interp):
         self.sizes = {}
         self.query_outcomes = {}
         self.query_classes = {}
+        self.query_orders = {}
         super().__init__(boot, prop, opts)
         self.model.compound_declared = set(boot.snapshot.get("compound_declared") or [])
         self.sizes.update(getattr(boot, "shipped_sizes", None) or {})
@@ -211,6 +212,15 @@ class QueryRecorder(Clauses):
         for a, b in zip(nfs, nfs[1:]):
             cls = cls or pair_class(self.I.model, a, b)
         self.I.query_classes[op["id"]] = cls or "in-region"
+        # the order in which each operand unit's factors were first multiplied (creation
+        # history); a side table, not part of the digest
+        orders = []
+        for v, m in prepared:
+            u = getattr(v, "unit", v)
+            f = getattr(u, "factors", None)
+            if f is not None:
+                orders.append([self.I.tok.get(id(k), "?") for k in f])
+        self.I.query_orders[op["id"]] = orders
         return None
 
 
@@ -460,4 +470,5 @@ def run(req, boot):
     res["n_generated"] = len(ops)
     res["queries"] = {str(k): v for k, v in interp.query_outcomes.items()}
     res["query_classes"] = {str(k): v for k, v in interp.query_classes.items()}
+    res["query_orders"] = {str(k): v for k, v in interp.query_orders.items()}
     return res
